@@ -157,3 +157,25 @@ PROPS["C06"] = {
         lane("TestQuery", "query", 20000, 80000, shards=8),
     ],
 }
+
+PROPS["C03"] = {
+    "pkg": "c03",
+    "level": "exploration",
+    "technique": "property-based testing (rapid): metamorphic spelling variations of a reference encoding (must decode to the original message) and single-fault injection (must be rejected); differential query-vs-JSON lane",
+    "level_text": ("The harness's own reference encoding of a generated message is (A) rewritten with any combination of the documented alternate spellings "
+                   "(quoted/bare numbers incl. uint64 > 2^63 and decimals, URL-safe / unpadded base64, enum with prefix, RFC3339 at another offset, member "
+                   "reorder, whitespace, explicit null for absent members) and must decode to a message equivalent to the original; (B) given exactly one "
+                   "fault from the listed classes at a random position (top level, nested, array element, map value, oneof arm) and must be rejected "
+                   "without panic; (C) scalar members moved to url.Values (dotted paths, repeated values for scalar arrays) must decode to the same "
+                   "message as the same members spelled in JSON."),
+    "level_note": "Sampled. Inputs the statement does not classify are never generated (1e2 / 1.0 into integers, month 13 in a date, trailing bytes, NaN strings). Faults inside an Any's pre-encoded payload are not injected (opaque to the outer decoder without a resolver).",
+    "rule": ("spelling: 4 variants per (schema, message); fault: 6 single-fault documents per (schema, message), fault class and site drawn by rapid; "
+             "query: one url.Values per (schema, message). Non-trivial: >=2 variations combined (spelling), fault at depth>=1 (fault), >=2 query keys "
+             "or a dotted path (query). Distinct by hash(schema, root, document)."),
+    "assumptions": ["README 'Scalar Types': all number types (ints, floats, decimal) may be quoted or unquoted; base64 URL or standard, with or without padding"],
+    "lanes": [
+        lane("TestSpelling", "spelling", 800, 4000, shards=16, must_classes=["var:bare-int64", "var:base64-url", "var:enum-with-prefix", "var:timestamp-offset", "var:explicit-null", "var:reorder"]),
+        lane("TestFault", "fault", 800, 4000, shards=16, must_classes=["fault:two-keys-in-oneof", "fault:type-contradicts-key", "fault:unknown-key", "pos:array-element", "pos:map-value", "pos:oneof-arm"]),
+        lane("TestQuery", "query", 1500, 6000, shards=8, must_classes=["nested-path", "scalar-array"]),
+    ],
+}
